@@ -57,26 +57,82 @@ theorem C04_empty_only_sole_final (P : Prims) (s : Signcrypt.State) (b : Signcry
     (h : Sc.accept P s b seqno = some []) : seqno - 1 = 0 ∧ b.final = true :=
   Sc.accept_empty P s b seqno h
 
+/-- **What `AuthSc.BreakIn P s spk H items` is** (definitional unfolding).  It
+    is ANCHORED to the receiver state `s` and the packets `items` of the run
+    (`Reaches`: see `C02_reaches_def` — every earlier item was a packet accepted
+    at its position and not final):
+
+    * *signature forgery in this run*: the sender is named (`s.sender = some spk`),
+      the run reaches its `i`-th packet `b` and accepts it as packet number
+      `i + 1`, releasing `c`; `b.ct` opens, under the receiver's payload key and
+      the nonce of (header hash, `b.final`, `i`), to `sig ‖ c` with a 64-byte
+      `sig` that verifies under `spk` on
+      domain ‖ header hash ‖ nonce ‖ final byte ‖ hash(`c`) — an input the owner
+      of `spk` never signed (no chunk of a message in `H`); or
+    * *hash collision in this run*: the chunk `c` released for such a packet and
+      the chunk `c'` the honest sender signed at that very position `i`, with
+      that very final flag, in the message of `H` with this header hash, are
+      DIFFERENT chunks with the SAME hash. -/
+theorem C04_break_def (P : Prims) (s : Signcrypt.State) (spk : Bytes) (H : List AuthSc.Event)
+    (items : List (Option SigncryptBlock)) :
+    AuthSc.BreakIn P s spk H items ↔
+      (∃ (i : Nat) (b : SigncryptBlock) (c sig : Bytes),
+        s.sender = some spk ∧
+        Reaches (Sc.accept P s) (·.final) items i b ∧
+        Sc.accept P s b (i + 1) = some c ∧
+        sig.length = 64 ∧
+        P.sbOpen s.payloadKey (Nonce.chunkSigncryption s.headerHash b.final i) b.ct = some (sig ++ c) ∧
+        P.verify spk (signcryptionSignatureInput P s.headerHash
+          (Nonce.chunkSigncryption s.headerHash b.final i) b.final c) sig = true ∧
+        ¬ ∃ e ∈ H, ∃ k c' f', e.plan[k]? = some (c', f') ∧
+            signcryptionSignatureInput P s.headerHash
+                (Nonce.chunkSigncryption s.headerHash b.final i) b.final c =
+              signcryptionSignatureInput P e.headerHash (Nonce.chunkSigncryption e.headerHash f' k) f' c') ∨
+      (∃ (i : Nat) (b : SigncryptBlock) (c : Bytes),
+        Reaches (Sc.accept P s) (·.final) items i b ∧
+        Sc.accept P s b (i + 1) = some c ∧
+        ∃ e ∈ H, e.headerHash = s.headerHash ∧ ∃ c', e.plan[i]? = some (c', b.final) ∧
+          c ≠ c' ∧ P.hash c = P.hash c') :=
+  Iff.rfl
+
 /-- **The reduction, named sender** — against an adversary who knows the payload
     key (nothing is assumed about it): released bytes are the first `m` chunks of
     ONE message the sender signcrypted under this very header hash (which covers
     the recipient list), all of it iff the run ends cleanly; or nothing is
-    released and the run fails; or a signature forgery / hash collision is
-    exhibited.  (For an anonymous sender no signature is checked: integrity then
-    rests on the secretbox alone, i.e. only against parties lacking the payload
-    key, as the property says.) -/
+    released and the run fails; or `AuthSc.BreakIn P s spk H items` (see
+    `C04_break_def`): a signature forgery or a hash collision exhibited by a
+    packet THIS run reached and accepted.  (For an anonymous sender no signature
+    is checked: integrity then rests on the secretbox alone, i.e. only against
+    parties lacking the payload key, as the property says.)
+
+    `BreakIn` is not always true: `C04_break_not_trivial`, `C04_tampered_runs_fail`.
+
+    `H`: all messages the owner of `spk` ever signcrypted.  `hlen`: their header
+    hashes are 64 bytes.  `hplan` is asked ONLY of the messages with this header
+    hash.  ASSUMPTION `hone` (explicit hypothesis): at most one of them has this
+    header hash — freshness of the sender's ephemeral key and payload key, which
+    the header covers, plus collision resistance of the header hash. -/
 theorem C04_authentic_or_break (P : Prims) (hP : P.Lawful) (s : Signcrypt.State) (spk : Bytes)
     (hs : s.sender = some spk) (hhl : s.headerHash.length = 64)
     (H : List AuthSc.Event)
-    (hplan : ∀ e ∈ H, PlanOK e.plan ∧ e.plan.length < 2 ^ 64 ∧ e.headerHash.length = 64)
-    (hone : ∀ e ∈ H, ∀ e' ∈ H, e.headerHash = e'.headerHash → e = e')
+    (hlen : ∀ e ∈ H, e.headerHash.length = 64)
+    (hplan : ∀ e ∈ H, e.headerHash = s.headerHash → PlanOK e.plan ∧ e.plan.length < 2 ^ 64)
+    (hone : ∀ e ∈ H, ∀ e' ∈ H, e.headerHash = s.headerHash → e'.headerHash = s.headerHash → e = e')
     (items : List (Option SigncryptBlock)) (tail : Tail) :
     let r := Signcrypt.run P s items tail 1
     r.bytes = [] ∧ r.err ≠ none ∨
     (∃ e ∈ H, e.headerHash = s.headerHash ∧ ∃ m, m ≤ e.plan.length ∧ r.bytes = planPrefix e.plan m ∧
         (r.err = none → m = e.plan.length)) ∨
-    AuthSc.Break P spk H :=
-  AuthSc.authentic_or_break P hP s spk hs hhl H hplan hone items tail
+    AuthSc.BreakIn P s spk H items :=
+  AuthSc.authentic_or_break P hP s spk hs hhl H hlen hplan hone items tail
+
+/-- a packet that figures in a break is a packet OF THIS RUN, at its index -/
+theorem C04_break_in_items (P : Prims) (s : Signcrypt.State) (spk : Bytes) (H : List AuthSc.Event)
+    (items : List (Option SigncryptBlock)) (h : AuthSc.BreakIn P s spk H items) :
+    ∃ i b c, items[i]? = some (some b) ∧ some b ∈ items ∧ i < items.length ∧
+      Sc.accept P s b (i + 1) = some c := by
+  rcases h with ⟨i, b, c, _, _, hr, ha, _⟩ | ⟨i, b, c, hr, ha, _⟩ <;>
+    exact ⟨i, b, c, hr.1, hr.mem, hr.lt, ha⟩
 
 /-- **Attribution.** Whenever a signcryption header is accepted: the payload key
     came out of one of the header's recipient entries, opened under a key derived
@@ -102,6 +158,37 @@ theorem C04_attribution (P : Prims) (kr : Keyring) (res : Signcrypt.Resolver) (h
             keys[i]? = some (some k) ∧ dk = Signcrypt.symDerivedKey P eph k)) :=
   signcrypt_attribution P kr res hh h log st hok
 
+/-! ## non-vacuity, and non-triviality of the reduction's third disjunct -/
 example : Toy.prims.Lawful := Toy.lawful
+example : Demo.prims.Lawful := Demo.lawful
+
+/-- the honest two-packet run (chunks "A", "B", named sender) of the
+    demonstration primitives ends cleanly and releases the plaintext … -/
+theorem C04_honest_run :
+    Signcrypt.run Demo.prims Demo.Sc.s [some Demo.Sc.b0, some Demo.Sc.b1] .eof 1 = ⟨[65, 66], none⟩ :=
+  Demo.Sc.honest_run
+
+/-- … and for it the anchored break is FALSE: the third disjunct of
+    `C04_authentic_or_break` is not always true. -/
+theorem C04_break_not_trivial :
+    ¬ AuthSc.BreakIn Demo.prims Demo.Sc.s Demo.Sc.spk [Demo.Sc.e0] [some Demo.Sc.b0, some Demo.Sc.b1] :=
+  Demo.Sc.honest_not_break
+
+/-- tampered runs — packets swapped; a byte of the signed chunk inside the
+    ciphertext changed — land in the FIRST disjunct -/
+theorem C04_tampered_runs_fail :
+    (let r := Signcrypt.run Demo.prims Demo.Sc.s [some Demo.Sc.b1, some Demo.Sc.b0] .eof 1
+     r.bytes = [] ∧ r.err ≠ none) ∧
+    (let r := Signcrypt.run Demo.prims Demo.Sc.s
+        [some { Demo.Sc.b0 with ct := Demo.Sc.b0.ct.set 80 67 }, some Demo.Sc.b1] .eof 1
+     r.bytes = [] ∧ r.err ≠ none) := by
+  refine ⟨Demo.Sc.swapped_run, ?_⟩
+  show (Signcrypt.run Demo.prims Demo.Sc.s _ .eof 1).bytes = [] ∧ _
+  rw [Demo.Sc.altered_run]; exact ⟨rfl, by simp⟩
+
+/-- a truncated run lands in the SECOND disjunct with `m = 1 < 2` and an error -/
+theorem C04_truncated_run :
+    Signcrypt.run Demo.prims Demo.Sc.s [some Demo.Sc.b0] .eof 1 = ⟨[65], some .unexpectedEOF⟩ :=
+  Demo.Sc.truncated_run
 
 end Saltpack.Props.C04
